@@ -1,6 +1,8 @@
 #!/bin/bash
 # try_mutant.sh <name> <prop> [<prop> ...] : applies /verif/seeded/<name>/patch.diff to /repo, runs the quick checks, reverts
 set -u
+# evidence of runs against a deliberately changed tree goes to a scratch directory, never to /verif/evidence
+export VERIF_EVIDENCE_DIR=$(mktemp -d /tmp/verif-evidence-seeded.XXXXXX)
 NAME=$1; shift
 cd /repo && git status --short | grep -q . && { echo "/repo not clean"; exit 1; }
 git -C /repo apply /verif/seeded/$NAME/patch.diff || { echo "patch does not apply"; exit 1; }
